@@ -253,6 +253,11 @@ type World struct {
 	opts    appOpts
 	onDisk  bool
 	Extra   []*secp256k1.PrivKey // further validators
+	// import of an exported state
+	GenesisOverride []byte
+	InitialHeight   int64
+	InitErr         error
+	InitResp        *abci.ResponseInitChain
 }
 
 func mustNoErr(err error) {
@@ -276,9 +281,23 @@ func sha256Sum(b []byte) []byte { h := sha256.Sum256(b); return h[:] }
 type GenesisTweak func(gs map[string]json.RawMessage, app *goatapp.App, w *World)
 
 func NewWorld(seed string, onDisk bool, tweak GenesisTweak) *World {
+	return newWorld(seed, onDisk, tweak, nil, 0)
+}
+
+// NewWorldFromExport initialises a fresh application from an exported application state.
+func NewWorldFromExport(seed string, appState []byte, initialHeight int64) (w *World, panicMsg string) {
+	defer func() {
+		if r := recover(); r != nil {
+			panicMsg = fmt.Sprint(r)
+		}
+	}()
+	return newWorld(seed, false, nil, appState, initialHeight), ""
+}
+
+func newWorld(seed string, onDisk bool, tweak GenesisTweak, override []byte, initialHeight int64) *World {
 	dir, err := os.MkdirTemp("", "goatverif-ah-")
 	mustNoErr(err)
-	w := &World{Dir: dir, onDisk: onDisk}
+	w := &World{Dir: dir, onDisk: onDisk, GenesisOverride: override, InitialHeight: initialHeight}
 	w.EL, _, w.stopEL = startEL(dir)
 	w.ValPriv = secp256k1.GenPrivKeyFromSecret([]byte("val-" + seed))
 	w.ValAddr = w.ValPriv.PubKey().Address()
@@ -386,15 +405,30 @@ func (w *World) initChain(tweak GenesisTweak) {
 	}
 	state, err := json.Marshal(gs)
 	mustNoErr(err)
+	if w.GenesisOverride != nil {
+		state = w.GenesisOverride
+	}
 	cp := &cmtproto.ConsensusParams{
 		Block:     &cmtproto.BlockParams{MaxBytes: 1 << 22, MaxGas: -1},
 		Evidence:  &cmtproto.EvidenceParams{MaxAgeNumBlocks: 100000, MaxAgeDuration: 48 * time.Hour, MaxBytes: 1 << 20},
 		Validator: &cmtproto.ValidatorParams{PubKeyTypes: []string{"secp256k1"}},
 		Abci:      &cmtproto.ABCIParams{},
 	}
-	_, err = app.InitChain(&abci.RequestInitChain{ChainId: ChainID, InitialHeight: 1, Time: w.Now, ConsensusParams: cp, AppStateBytes: state})
-	mustNoErr(err)
-	w.Height = 1
+	ih := int64(1)
+	if w.InitialHeight > 0 {
+		ih = w.InitialHeight
+	}
+	resp, err := app.InitChain(&abci.RequestInitChain{ChainId: ChainID, InitialHeight: ih, Time: w.Now, ConsensusParams: cp, AppStateBytes: state})
+	if w.GenesisOverride != nil {
+		w.InitErr = err
+		w.InitResp = resp
+		if err != nil {
+			return
+		}
+	} else {
+		mustNoErr(err)
+	}
+	w.Height = ih
 	w.LastHash = make([]byte, 32)
 }
 
